@@ -154,6 +154,20 @@ fn run_case(out: &mut Out, run: u64, c: &Case) {
                 return;
             }
             let (bi, bj) = (c.i - 1, if c.j > 0 { Some(c.j - 1) } else { None });
+            // synthesis: both reactants disappear, everyone else keeps their relative order (bit-identical), and the product
+            // sits at some position k -- the statement does not say which slot it inherits
+            let synth_pos: Option<usize> = if c.op == "synthesis" && accepted && pop2.len() + 1 == pop.len() && mols2.len() == pop2.len() {
+                let keep: Vec<usize> = (0..pop.len()).filter(|k| *k != bi && Some(*k) != bj).collect();
+                (0..pop2.len()).find(|k| {
+                    let rest: Vec<usize> = (0..pop2.len()).filter(|n| n != k).collect();
+                    rest.len() == keep.len()
+                        && rest.iter().zip(&keep).all(|(n, o)| {
+                            pop2[*n] == pop[*o] && mols2[*n].kinetic_energy.to_bits() == mols[*o].kinetic_energy.to_bits()
+                        })
+                })
+            } else {
+                None
+            };
             let local = if !accepted {
                 true
             } else {
@@ -165,15 +179,7 @@ fn run_case(out: &mut Out, run: u64, c: &Case) {
                         pop2.len() == pop.len() + 1
                             && (0..pop.len()).all(|k| k == bi || (pop2[k] == pop[k] && mols2[k].kinetic_energy.to_bits() == mols[k].kinetic_energy.to_bits()))
                     }
-                    _ => {
-                        // synthesis: j disappears, everyone else keeps their relative order
-                        let jj = bj.unwrap();
-                        let keep: Vec<usize> = (0..pop.len()).filter(|k| *k != jj).collect();
-                        pop2.len() + 1 == pop.len()
-                            && keep.iter().enumerate().all(|(n, k)| {
-                                *k == bi || (pop2[n] == pop[*k] && mols2[n].kinetic_energy.to_bits() == mols[*k].kinetic_energy.to_bits())
-                            })
-                    }
+                    _ => synth_pos.is_some(),
                 }
             };
             // energy of the participants (and the buffer) before = after
@@ -184,7 +190,7 @@ fn run_case(out: &mut Out, run: u64, c: &Case) {
             let split = if !accepted || mols2.len() != pop2.len() {
                 mols2.len() == pop2.len()
             } else {
-                let pos_i = if c.op == "synthesis" && bj.unwrap() < bi { bi - 1 } else { bi };
+                let pos_i = if c.op == "synthesis" { synth_pos.unwrap_or(0) } else { bi };
                 let mut after = buffer2 + pop2[pos_i].objective().value() + mols2[pos_i].kinetic_energy;
                 match c.op.as_str() {
                     "decompose" => after += pop2[pop2.len() - 1].objective().value() + mols2[mols2.len() - 1].kinetic_energy,
@@ -195,7 +201,7 @@ fn run_case(out: &mut Out, run: u64, c: &Case) {
             };
             let aligned = mols2.len() == pop2.len()
                 && mols2.iter().zip(&pop2).all(|(m, x)| m.best.objective() <= x.objective());
-            let pos_i = if c.op == "synthesis" && accepted && bj.unwrap() < bi { bi - 1 } else { bi };
+            let pos_i = if c.op == "synthesis" && accepted { synth_pos.unwrap_or(0) } else { bi };
             let kef = mols2.get(pos_i).map(|m| m.kinetic_energy.floor() as i64).unwrap_or(-1);
             let bf = if c.op == "on_wall" { buffer2.ceil() as i64 } else { buffer2.floor() as i64 };
             rec.insert("res".into(), json!(if accepted { "changed" } else { "unchanged" }));
